@@ -85,6 +85,15 @@ func (s *sServer) Dial(ctx context.Context, player Player) (net.Conn, error) {
 	}
 	sched.Point("dial", nil) // the dial takes time: other threads may run
 	w.dialling--
+	if s.name == "k" {
+		// server k models a backend that KICKS the player while it is connecting: the backend's session handler
+		// (its own goroutine in production) ends the attempt through connectedPlayer.handleKickEvent, which clears the
+		// in-flight slot with setInFlightConnection(nil) - BEFORE the requesting goroutine has returned from
+		// internalConnect and run its deferred resetIfInFlightIs. From here on the attempt is over (it no longer counts
+		// as dialling) and a newer request may claim the slot; the late deferred cleanup must leave that claim alone.
+		player.(*connectedPlayer).setInFlightConnection(nil)
+		sched.Point("attempt-ended-by-backend-handler", nil)
+	}
 	return nil, errors.New("connection refused (scripted)")
 }
 
@@ -96,7 +105,7 @@ func sBuild(x *sched.X) (*Proxy, *connectedPlayer, *sWorld) {
 	ev := &sEvents{}
 	p := &Proxy{log: logr.Discard(), cfg: cfg, event: ev, servers: make(map[string]*registeredServer), configServers: make(map[string]bool), authenticator: sAuth,
 		playerNames: map[string]*connectedPlayer{}, playerIDs: map[uuid.UUID]*connectedPlayer{}}
-	for i, n := range []string{"a", "b", "c"} {
+	for i, n := range []string{"a", "b", "c", "k"} {
 		if _, err := p.Register(&sServer{name: n, addr: netutil.NewAddr(fmt.Sprintf("10.9.0.%d:25565", i+1), "tcp"), world: w}); err != nil {
 			panic(err)
 		}
@@ -145,6 +154,10 @@ func TestVerif(t *testing.T) {
 			{Name: "two-requests-different-servers", Quick: 2, Thorough: -1, Body: mk("b", "c")},
 			{Name: "two-requests-same-server", Quick: 2, Thorough: -1, Body: mk("b", "b")},
 			{Name: "three-requests", Quick: 2, Thorough: 3, Body: mk("a", "b", "c")},
+			// round-4 seed C16-4: the late deferred cleanup of a finished attempt (slot already cleared by the kick
+			// handler) races with a retry to the SAME server and a third request
+			{Name: "late-cleanup-vs-retry-same-server", Quick: 2, Thorough: 3, Body: mk("k", "k", "c")},
+			{Name: "late-cleanup-vs-retry-other-server", Quick: 2, Thorough: 3, Body: mk("k", "b", "c")},
 		})
 	})
 }
